@@ -66,22 +66,22 @@ set; a burn queues the slashed node iff its stake falls below the minimum.  (The
 theorem waiting_entry_causes (s : State) (hi : Inv s) :
     (∀ a signer, (handleBeginUnstake s a signer).1.waiting =
         if (handleBeginUnstake s a signer).2 = .ok then sins s.waiting a else s.waiting) ∧
-    (∀ h t now a signer, (handleUnjail s h t now a signer).1.waiting = s.waiting ∨
+    (∀ h t a signer, (handleUnjail s h t a signer).1.waiting = s.waiting ∨
         ∃ v, aget s.vals a = some v ∧ signerOk v.addr v.output signer = true ∧ v.tokens < s.params.minStake ∧
-          (handleUnjail s h t now a signer).1.waiting = sins s.waiting v.addr ∧ (handleUnjail s h t now a signer).2 ≠ .ok) ∧
+          (handleUnjail s h t a signer).1.waiting = sins s.waiting v.addr ∧ (handleUnjail s h t a signer).2 ≠ .ok) ∧
     (∀ h m signer, (handleStake s h m signer).1.waiting = s.waiting) ∧
     (∀ a v amount, aget s.vals a = some v → 0 < amount →
         (v.tokens - burnAmount amount v.tokens < s.params.minStake → a ∈ (simpleSlash s a amount).waiting) ∧
         (s.params.minStake ≤ v.tokens - burnAmount amount v.tokens → (simpleSlash s a amount).waiting = s.waiting)) :=
   ⟨fun a signer => waiting_after_beginUnstake s a signer (fun v hv => hi.keys a v hv),
-   fun h t now a signer => waiting_after_unjail s h t now a signer,
+   fun h t a signer => waiting_after_unjail s h t a signer,
    fun h m signer => waiting_after_stake s h m signer,
    fun a v amount hv hpos => waiting_after_burn s hi a v hv amount hpos⟩
 
 /-- a rejected unjail of a node whose stake fell below a raised minimum queues it (no rollback in deliver mode) -/
 example :
-    let s1 := step (step Ex.s0 (.setParams { Ex.p0 with minStake := 25000000 })) (.unjail 5 2000 2000 Ex.A Ex.O)
-    Ex.A ∈ s1.waiting ∧ (handleUnjail (step Ex.s0 (.setParams { Ex.p0 with minStake := 25000000 })) 5 2000 2000 Ex.A Ex.O).2 = .err 105 := by
+    let s1 := step (step Ex.s0 (.setParams { Ex.p0 with minStake := 25000000 })) (.unjail 5 2000 Ex.A Ex.O)
+    Ex.A ∈ s1.waiting ∧ (handleUnjail (step Ex.s0 (.setParams { Ex.p0 with minStake := 25000000 })) 5 2000 Ex.A Ex.O).2 = .err 105 := by
   decide
 
 /-- The stake is paid in full, once, to the output address (the operator's address when none is set), and the
